@@ -186,6 +186,17 @@ pub fn exec(tok: &[&str]) -> String {
         // ---- signing (C01, C08, C10) ---------------------------------------------------------------------
         "sign" => crate::sign::op_sign(tok[1].parse().unwrap(), &unhex(tok[2]), &unhex(tok[3]), tok[4].parse().unwrap()),
         "sign_model" => crate::sign::op_sign_model(tok[1].parse().unwrap(), &unhex(tok[2]), [tok[3], tok[4], tok[5], tok[6]], &unhex(tok[7]), tok[8].parse().unwrap(), tok[9].parse().unwrap(), tok[10]),
+        // two different salts in front of the same message must hash to different points (the salt is part of what is hashed)
+        "salt_binds" => {
+            let n: usize = tok[1].parse().unwrap();
+            let m = unhex(tok[2]);
+            let point = |fill: u8| {
+                let mut s = vec![fill; 40];
+                s.extend_from_slice(&m);
+                vh::hash_to_point(&s, n)
+            };
+            if point(0x11) != point(0xEE) { "differ".to_string() } else { "same".to_string() }
+        }
         "sign_salt" => crate::sign::op_sign_salt(tok[1].parse().unwrap(), &unhex(tok[2]), &unhex(tok[3]), tok[4].parse().unwrap()),
         "sign_fresh" => crate::sign::op_sign_fresh(tok[1].parse().unwrap(), &unhex(tok[2]), tok[3].parse().unwrap(), tok[4].parse().unwrap()),
         "sign_key_after_key" => crate::sign::op_key_after_key(tok[1].parse().unwrap(), tok[2]),
